@@ -500,6 +500,87 @@ theorem streaming_writer_decodes_to_accepted (n : Nat) (hn : n < 2 ^ 32) (ds : L
       exact ⟨c, Or.inl ⟨h1, h2⟩⟩
   · rw [hrows]; exact hfl
 
+/-! ### the batch collector's output is decodable too -/
+
+theorem betterOK_fresh (n : Nat) : BetterOK n ({ maxDeltas := n } : Better) :=
+  ⟨by simp [Better.Inv], rfl, by intro r hr; simp at hr⟩
+
+theorem batch_chunks_ok (n : Nat) (b : Batch) (d : BDoc) (hd : DocOK d) (hm : b.maxSamples = n)
+    (h : ∀ c ∈ b.chunks, BetterOK n c) : (∀ c ∈ (b.add d).1.chunks, BetterOK n c) ∧ (b.add d).1.maxSamples = n := by
+  unfold Batch.add
+  cases hl : b.chunks.getLast? with
+  | none => simp only []; exact ⟨h, hm⟩
+  | some last =>
+    simp only []
+    have hlast : last ∈ b.chunks := List.mem_of_getLast? hl
+    by_cases hfull : last.info.2 ≥ b.maxSamples
+    · rw [if_pos hfull]
+      refine ⟨?_, hm⟩
+      intro c hc
+      simp only [List.mem_append, List.mem_cons, List.not_mem_nil, or_false] at hc
+      rcases hc with hc | rfl
+      · exact h c hc
+      · rw [hm]; exact betterOK_add n _ d hd (betterOK_fresh n)
+    · rw [if_neg hfull]
+      refine ⟨?_, hm⟩
+      intro c hc
+      simp only [List.mem_append, List.mem_cons, List.not_mem_nil, or_false] at hc
+      rcases hc with hc | rfl
+      · exact h c (List.dropLast_subset _ hc)
+      · exact betterOK_add n last d hd (h last hlast)
+
+theorem batch_resolve_ok (n : Nat) (hn : n < 2 ^ 32) : ∀ (chunks : List Better) (acc : List OutDoc) (out : List OutDoc),
+    (∀ c ∈ chunks, BetterOK n c) → (∀ o ∈ acc, ChunkOK o) →
+    chunks.foldl (fun a b => match a, b.resolve with
+      | some l, some o => some (l ++ o)
+      | _, _ => none) (some acc) = some out → ∀ o ∈ out, ChunkOK o := by
+  intro chunks
+  induction chunks with
+  | nil => intro acc out _ ha h; simp at h; subst h; exact ha
+  | cons b rest ih =>
+    intro acc out hc ha h
+    simp only [List.foldl_cons] at h
+    cases hr : b.resolve with
+    | none =>
+      rw [hr] at h
+      -- the fold stays `none`
+      have hnone : ∀ (l : List Better), l.foldl (fun a b => match a, b.resolve with
+          | some l, some o => some (l ++ o)
+          | _, _ => none) (none : Option (List OutDoc)) = none := by
+        intro l; induction l with
+        | nil => rfl
+        | cons x xs ihx => simpa using ihx
+      simp only [] at h
+      rw [hnone rest] at h; simp at h
+    | some docs =>
+      rw [hr] at h
+      simp only [] at h
+      have hdocs := betterOK_resolve n hn b (hc b (List.mem_cons_self ..)) docs hr
+      exact ih (acc ++ docs) out (fun c hc' => hc c (List.mem_cons_of_mem _ hc'))
+        (by intro o ho; rcases List.mem_append.1 ho with h1 | h1; exact ha o h1; exact hdocs o h1) h
+
+/-- **Everything the batch collector resolves to is decodable**: after any sequence of `Add`s of
+well-formed documents every metric chunk of `Resolve`'s output satisfies `ChunkOK`, hence
+(`chunkOK_decodes`) is decoded by the reader model to exactly the samples it holds -/
+theorem batch_output_decodes (n : Nat) (hn : n < 2 ^ 32) (ds : List BDoc) (hds : ∀ d ∈ ds, DocOK d)
+    (out : List OutDoc) (hres : (ds.foldl (fun b d => (b.add d).1) (Batch.new n)).resolve = some out) :
+    ∀ o ∈ out, ChunkOK o := by
+  have : ∀ (ds : List BDoc), (∀ d ∈ ds, DocOK d) → ∀ (b : Batch), b.maxSamples = n → (∀ c ∈ b.chunks, BetterOK n c) →
+      (ds.foldl (fun b d => (b.add d).1) b).maxSamples = n ∧
+      ∀ c ∈ (ds.foldl (fun b d => (b.add d).1) b).chunks, BetterOK n c := by
+    intro ds
+    induction ds with
+    | nil => intro _ b hm hc; exact ⟨hm, hc⟩
+    | cons d ds ih =>
+      intro hd b hm hc
+      simp only [List.foldl_cons]
+      obtain ⟨k1, k2⟩ := batch_chunks_ok n b d (hd d (List.mem_cons_self ..)) hm hc
+      exact ih (fun x hx => hd x (List.mem_cons_of_mem _ hx)) _ k2 k1
+  obtain ⟨_, hck⟩ := this ds hds (Batch.new n) rfl
+    (by intro c hc; simp [Batch.new] at hc; subst hc; exact betterOK_fresh n)
+  unfold Batch.resolve at hres
+  exact batch_resolve_ok n hn _ [] out hck (by simp) hres
+
 /-! non-vacuity: a concrete history -/
 example : (({ maxDeltas := 1 } : Better).run
     [.add (.cons [97] (.int64 1#64) .nil), .add (.cons [97] (.int64 2#64) .nil),
